@@ -296,6 +296,9 @@ class PrefixExpression(FilterExpression):
         super().__init__()
 
     def __str__(self) -> str:
+        if isinstance(self.right, InfixExpression) and not self.right.logical:
+            # `!` binds more tightly than comparison operators.
+            return f"{self.operator}({self.right})"
         return f"{self.operator}{self.right}"
 
     def __eq__(self, other: object) -> bool:
